@@ -206,9 +206,22 @@ def rule_r2(ctx, rep):
             d = fi.default_of(p_)
             if isinstance(d, ast.Constant) and d.value is None and p_ != selfp and ft.env.get(p_) in ("int", "optint", None, "optany"):
                 idp = p_ if idp is None else idp
-        captures = [n for n in ast.walk(fi.node) if isinstance(n, ast.Assign) and len(n.targets) == 1 and isinstance(n.targets[0], ast.Name)
-                    and isinstance(n.value, ast.Call) and isinstance(n.value.func, ast.Name) and n.value.func.id == "id"
-                    and n.value.args and _path(n.value.args[0]) in (f"{selfp}.nsmap", f"{selfp}._nsmap")]
+        def is_id_of_own_map(e):
+            return isinstance(e, ast.Call) and isinstance(e.func, ast.Name) and e.func.id == "id" and e.args \
+                and _path(e.args[0]) in (f"{selfp}.nsmap", f"{selfp}._nsmap")
+
+        def is_capture(v):
+            """id(self.nsmap), or `id(self.nsmap) if p is None else p` (either polarity) / `p or id(self.nsmap)`: the variable holds
+            the identity of the old map (its own, or the one handed down) on every path"""
+            if is_id_of_own_map(v):
+                return True
+            if isinstance(v, ast.IfExp):
+                a, b = v.body, v.orelse
+                return (is_id_of_own_map(a) and isinstance(b, ast.Name) and b.id in fi.params) or (is_id_of_own_map(b) and isinstance(a, ast.Name) and a.id in fi.params)
+            if isinstance(v, ast.BoolOp) and isinstance(v.op, ast.Or) and len(v.values) == 2:
+                return isinstance(v.values[0], ast.Name) and v.values[0].id in fi.params and is_id_of_own_map(v.values[1])
+            return False
+        captures = [n for n in ast.walk(fi.node) if isinstance(n, ast.Assign) and len(n.targets) == 1 and isinstance(n.targets[0], ast.Name) and is_capture(n.value)]
         rebinds = [n for n in ast.walk(fi.node) if isinstance(n, ast.Assign) and any(isinstance(t, ast.Attribute) and nm.canon(t.attr) == "_nsmap"
                                                                                   and _path(t.value) == selfp for t in n.targets)]
         if not captures:
@@ -333,12 +346,27 @@ def rule_r3(ctx, rep):
         for n in ast.walk(fi.node):
             if isinstance(n, ast.For) and any(x is c for x in ast.walk(n)):
                 loop = n
-        ok_loop = loop is not None and _path(loop.iter) in (f"{selfp}.nsmap", f"{selfp}._nsmap") and isinstance(loop.target, ast.Name)
+        # for p in M / M.keys() / for p, uri in M.items()   with M the parent's own map
+        valvar = None
+        it_base, tgt_ok = (loop.iter if loop is not None else None), False
+        if loop is not None:
+            if isinstance(it_base, ast.Call) and isinstance(it_base.func, ast.Attribute) and it_base.func.attr in ("keys", "items") and not it_base.args:
+                kind_ = it_base.func.attr
+                it_base = it_base.func.value
+                if kind_ == "items":
+                    if isinstance(loop.target, ast.Tuple) and len(loop.target.elts) == 2 and all(isinstance(x, ast.Name) for x in loop.target.elts):
+                        valvar = loop.target.elts[1].id
+                        tgt_ok = True
+                else:
+                    tgt_ok = isinstance(loop.target, ast.Name)
+            else:
+                tgt_ok = isinstance(loop.target, ast.Name)
+        ok_loop = loop is not None and _path(it_base) in (f"{selfp}.nsmap", f"{selfp}._nsmap") and tgt_ok
         rep.oblige(("R3", "loop", norm(c)), ok_loop)
         if not ok_loop:
             rep.add("R3", fi.qname, c, "the hand-over does not range over every prefix of the parent's map", fi.loc(c))
             continue
-        pv = loop.target.id
+        pv = loop.target.id if isinstance(loop.target, ast.Name) else loop.target.elts[0].id
         md = MarkDomain()
         for n in ast.walk(loop):
             if isinstance(n, ast.Compare) and len(n.ops) == 1 and isinstance(n.left, ast.Name) and n.left.id == pv \
@@ -356,7 +384,8 @@ def rule_r3(ctx, rep):
             rep.add("R3", fi.qname, c, "a parent prefix is pushed into the child without testing that the child does not bind it already: "
                     "the child's own bindings must win", fi.loc(c))
         a = c.args
-        ok_args = len(a) >= 2 and isinstance(a[0], ast.Name) and a[0].id == pv and norm(a[1]).replace("_nsmap", "nsmap") == f"{selfp}.nsmap[{pv}]"
+        ok_args = len(a) >= 2 and isinstance(a[0], ast.Name) and a[0].id == pv and (norm(a[1]).replace("_nsmap", "nsmap") == f"{selfp}.nsmap[{pv}]" or
+                                                                                    (valvar is not None and isinstance(a[1], ast.Name) and a[1].id == valvar))
         rep.oblige(("R3", "args", norm(c)), ok_args)
         if not ok_args:
             rep.add("R3", fi.qname, c, "the prefix is handed to the child with a URI other than the parent's binding for it", fi.loc(c))
